@@ -1,3 +1,5 @@
+import Goflow.Generated.Conversions
+import Goflow.Producer.SourceSnapshot
 import Goflow.Spec.SflowMap
 import Goflow.Producer.Sflow
 import Goflow.Pipe
@@ -95,5 +97,17 @@ theorem as_rules (m : FlowMsg) (nh : Bytes) (a spa t : Nat) (first : Nat) (mid :
     rw [this, List.getLast?_append]
     simp
   simp [applyRecord, hl]
+
+/-- The statements of the sFlow conversion — sample-level assignments, one `case` body per record type, the per-message
+    stamps, the raw-header dispatch, the selection of flow samples — are, in the source now, the statements the model of
+    `Goflow/Producer/Sflow.lean` was written from (regenerated on every run, compared with the frozen text). -/
+theorem conversion_source_matches :
+    Goflow.Generated.sflowSampleStmts = Goflow.Snapshot.sflowSampleStmts ∧
+    Goflow.Generated.sflowSampleCases = Goflow.Snapshot.sflowSampleCases ∧
+    Goflow.Generated.sflowMessageStmts = Goflow.Snapshot.sflowMessageStmts ∧
+    Goflow.Generated.sflowHeaderStmts = Goflow.Snapshot.sflowHeaderStmts ∧
+    Goflow.Generated.sflowSamplesStmts = Goflow.Snapshot.sflowSamplesStmts ∧
+    Goflow.Generated.sflowSamplesCases = Goflow.Snapshot.sflowSamplesCases := by
+  decide +kernel
 
 end Goflow.C09
